@@ -47,6 +47,7 @@ type pipeGen struct {
 	maxMultiKeys                                  int
 	errFrag                                       int // 1 in errFrag split requests gets one fragment answered with an error (0 = never)
 	wUnroutable                                   int // weight of requests with a key in an unowned slot (needs a topology with a gap)
+	bigFrag, bigSize                              int // 1 in bigFrag split MGETs gets one fragment answered with bigSize bytes (above the proxy's limit)
 }
 
 // goodSlot draws a slot that has an owner in the environment's topology.
@@ -204,7 +205,20 @@ func (g *pipeGen) multi() *PReq {
 		}
 		r.ExpectErr = true
 	}
-	switch g.rng.Intn(3) {
+	kindPick := g.rng.Intn(3)
+	if g.bigFrag > 0 && !r.ExpectErr && len(order) >= 2 && g.rng.Intn(g.bigFrag) == 0 {
+		// one fragment's reply exceeds the proxy's size limit: the whole request is
+		// answered with an error
+		kindPick = 0
+		bad := order[g.rng.Intn(len(order))]
+		pl := g.script.Plan(bySlot[bad][0])
+		size := g.bigSize
+		pl.Act = func(*BReq) Action {
+			return Action{Reply: ArrayReply(BulkReply(bytes.Repeat([]byte("B"), size)))}
+		}
+		r.ExpectErr = true
+	}
+	switch kindPick {
 	case 0:
 		r.Kind = "mget"
 		args := append([]string{"MGET"}, keys...)
